@@ -538,6 +538,7 @@ def rerun_case(sc: Scenario, cfg, history, state, done, traced=False, label="gen
                       for k, ph in enumerate(mp)]
             if rp != mp:
                 ctx.disagree("C06.trace", case, {"phases": rp}, {"phases": mp})
+            plan_correspondence(sc, cfg, case, a, n_updates, real, state)
     if m["hyp"] and m["safe"] and m["outcome"] != "ok":
         ctx.disagree("C06.model-invariant", case, None, {"state": a, "model": mod})
     if mhist is not None and real["outcome"] == "ok" and m["outcome"] == "ok":
@@ -923,6 +924,184 @@ def force_overwrite_check(ctx):
 
 
 # ---------------------------------------------------------------------------------------------
+# the plan read off the source (AF.FitFS.Plan): tables, flags, order of the writes
+
+
+def source_tables_check(ctx, cfg):
+    """(i) the call tables extracted from the source *now* are the ones compiled into the model (the theorems
+    `plan_is_run`, `source_repairs_in_place` ... are about those); (ii) the three structural repair flags the
+    model computes from the tables are the ones the crash probes observe on the real code"""
+    import tables_c06
+
+    case = {"route": "source-tables"}
+    try:
+        now = tables_c06.tables()
+    except Exception as e:  # a function of the fit's life is gone / renamed: the tie is broken
+        ctx.disagree("C06.source-tables", case, {"error": f"{type(e).__name__}: {e}"}, None)
+        return
+    st = {"remove_files": False, "samples_csv": True, "keep_internal": False, "search": "lbfgs", "fom_is_likelihood": False}
+    m = ctx.lean.ask({"p": "C06", "q": "plan", "cfg": cfg, "st": st, "n": 0, "fs": {"folder": {}, "zip": "a", "clock": 0}})
+    if "driver_error" in m:
+        ctx.disagree("C06.driver", case, None, m)
+        return
+    ctx.hit("source-tables-checked")
+    compiled = m["tables"]
+    diff = sorted(k for k in set(now) | set(compiled) if not same_calls(now.get(k), compiled.get(k)))
+    if diff:
+        ctx.disagree("C06.source-tables", case, {k: now.get(k) for k in diff}, {k: compiled.get(k) for k in diff})
+    src = m["src_cfg"]
+    probed = {k: cfg[k] for k in ("zip_atomic", "restore_validates", "atomic_writes")}
+    if not probed["zip_atomic"]:
+        probed["restore_validates"] = src["restore_validates"]  # (only observable through a truncated archive)
+    if src != probed and not diff:
+        ctx.disagree("C06.source-flags", case, {"probed": probed}, {"from_source": src})
+
+
+def same_calls(t1, t2):
+    """two call tables mean the same: under every valuation of the settings they test, the same calls execute in
+    the same order (so swapping the branches of an `if`, or nesting guards differently, is no difference)"""
+    if t1 is None or t2 is None:
+        return False
+    import itertools
+
+    conds = sorted({c for t in (t1, t2) for _, gs in t for c, _ in gs})
+    for vals in itertools.product((False, True), repeat=len(conds)):
+        env = dict(zip(conds, vals))
+        act = lambda t: [tok for tok, gs in t if all(env[c] == p for c, p in gs)]
+        if act(t1) != act(t2):
+            return False
+    return True
+
+
+def ordered_real(events, zip_present):
+    """the traced mutations after `restore`, in order: writes of the relevant files (with how they were written),
+    explicit removals, rmtree of the search-internal folder / of the output folder, archive operations; only the
+    first pre-fit write; the sampler's own checkpoint file is left out"""
+    ops = []
+    restoring = zip_present
+    for ev, rel, extra in events:
+        rel = rel or ""
+        parts = rel.split("/")
+        inner = "/".join(parts[2:]) if len(parts) > 2 and parts[0] == "fit" else None
+        top = parts[1] if len(parts) == 2 and parts[0] == "fit" else None
+        if restoring:
+            if ev == "os.remove" and top and top.endswith(".zip"):
+                restoring = False
+                ops.append(("zipRemove",))
+            continue
+        if ev == "open":
+            if top and top.endswith(".zip"):
+                ops += [("zipOpen",), ("zipClose",)]
+            elif inner in BY_REL:
+                ops.append(("put", BY_REL[inner], False))
+            elif inner in PREFIT:
+                ops.append(("prefit",))
+        elif ev in ("os.rename", "os.replace"):
+            dparts = (extra or "").split("/")
+            dinner = "/".join(dparts[2:]) if len(dparts) > 2 else None
+            if len(dparts) == 2 and dparts[1].endswith(".zip"):
+                ops.append(("zipClose",))
+            elif dinner in BY_REL:
+                ops.append(("put", BY_REL[dinner], True))
+            elif dinner in PREFIT:
+                ops.append(("prefit",))
+        elif ev == "os.remove":
+            if top and top.endswith(".zip"):
+                ops.append(("zipRemove",))
+            elif inner in BY_REL:
+                ops.append(("remove", BY_REL[inner]))
+        elif ev == "shutil.rmtree":
+            if inner == "files/search_internal":
+                ops.append(("rmtree", "internal"))
+            elif top and not top.endswith(".zip") and not top.endswith(".tmp"):
+                ops.append(("rmtree", "folder"))
+    return normal_order(ops)
+
+
+def ordered_model(steps, zip_present):
+    ops = []
+    restoring = zip_present
+    buf = []
+    for s in steps:
+        k = s[0]
+        if restoring:
+            if k == "zipRemove":
+                restoring = False
+                ops.append(("zipRemove",))
+            continue
+        if k == "remove":
+            buf.append(s)
+            continue
+        if k == "other" and s[1] in ("rmdir-internal", "rmdir"):
+            ops.append(("rmtree", "internal" if s[1] == "rmdir-internal" else "folder"))
+            buf = []
+            continue
+        ops += [("remove", b[1]) for b in buf if not b[2]]
+        buf = []
+        if k == "put":
+            ops.append(("put", s[1], bool(s[3])))
+        elif k in ("zipOpen", "zipClose", "zipRemove"):
+            ops.append((k,))
+        elif k == "other" and s[1] == "prefit":
+            ops.append(("prefit",))
+    ops += [("remove", b[1]) for b in buf if not b[2]]
+    return normal_order(ops)
+
+
+def normal_order(ops):
+    out = []
+    seen_prefit = False
+    for op in ops:
+        if op[0] == "prefit":
+            if seen_prefit:
+                continue
+            seen_prefit = True
+        if op[:2] in (("put", "save"), ("remove", "save")):
+            continue  # how often the sampler checkpoints is its own business
+        if op[:2] == ("put", "marker"):
+            op = ("put", "marker", True)  # creating the empty marker file is one system call
+        out.append(list(op))
+    return out
+
+
+def plan_correspondence(sc, cfg, case, a, n_updates, real, state):
+    """the steps `AF.FitFS.Plan.planSteps` reads off the source tables for this call: equal to the model's `run`
+    (executed instance of theorem `plan_is_run`), and - *in order* - what the traced real call did"""
+    ctx = sc.ctx
+    m = ctx.lean.ask({"p": "C06", "q": "plan", "cfg": cfg, "st": sc.settings, "n": n_updates, "fs": a})
+    if "driver_error" in m:
+        ctx.disagree("C06.driver", case, None, m)
+        return
+    ctx.hit("plan:checked")
+    if m["hyp"] and m["safe"] and m["plan"] != m["run"]:
+        ctx.disagree("C06.plan-vs-run", case, {"state": a}, {"plan": m["plan"], "run": m["run"]})
+    if not (m["hyp"] and m["safe"]) or m["outcome"] != "ok":
+        return
+    if (m["sampled"]) != (real["calls"] > 0):
+        ctx.disagree("C06.plan-sampling", case, {"sampled": real["calls"] > 0}, {"sampled": m["sampled"], "state": a})
+    zp = a["zip"] != "a"
+    ro = ordered_real(real["events"], zp)
+    mo = ordered_model(m["plan"], zp)
+    if sc.kind == "lbfgs_cap":
+        # the iteration budget is a whole number of checkpoint intervals: the last checkpoint already holds every
+        # iteration (of this run, or - see rerun_case - of the run that was killed) and the search returns without a
+        # further scipy call, hence without the checkpoint write of the model's last round (listed assumption)
+        mark = next((i for i, op in enumerate(mo) if op[:2] == ["put", "marker"]), len(mo))
+        ck = [i for i, op in enumerate(mo[:mark]) if op[:2] == ["put", "internal"]]
+        n_real = sum(1 for op in ro[: next((i for i, op in enumerate(ro) if op[:2] == ["put", "marker"]), len(ro))]
+                     if op[:2] == ["put", "internal"])
+        if ck and len(ck) == n_real + 1:
+            ctx.hit("plan:capped-last-round-without-checkpoint")
+            mo = mo[: ck[-1]] + mo[ck[-1] + 1:]
+    if ro != mo:
+        k = next((i for i, (x, y) in enumerate(zip(ro, mo)) if x != y), min(len(ro), len(mo)))
+        ctx.disagree("C06.write-order", case, {"at": k, "real": ro[max(0, k - 2): k + 3], "n": len(ro)},
+                     {"model": mo[max(0, k - 2): k + 3], "n": len(mo), "state": a})
+    else:
+        ctx.hit("plan:order-agrees")
+
+
+# ---------------------------------------------------------------------------------------------
 # entry points
 
 
@@ -1016,6 +1195,7 @@ def run(ctx):
     rng = ctx.rng
     cfg, base_sc = probe_flags(ctx)
     ctx.notes["observed_cfg"] = cfg
+    source_tables_check(ctx, cfg)
 
     # corpus: stored histories (witnesses of the repaired defects) run first
     for f in sorted((VERIF / "corpus" / "C06").glob("*.json")):
